@@ -65,8 +65,12 @@ func VH_L3_newReader() {
 	// keep the tables small: lc+lp <= 4 (classic LZMA allows up to 12; the table size is the only difference)
 	pb := int(data[0])
 	vAssume(pb >= 225 || pb%9+(pb/9)%5 <= 4)
-	// dictionary sizes up to 2^26 (larger ones only change an allocation size)
-	vAssume(data[4] < 4)
+	// the dictionary size field is one of a few values around the rule's boundaries
+	// (it only determines an allocation size, which must be concrete)
+	hci := vConcretize(int(vNondetU8("hdrDict")) % 7)
+	vAssume(hci%vShards() == vShardIdx())
+	hc := []uint32{0, 4095, 4096, 4097, 1 << 16, 1<<20 + 1, 3 << 20}[hci]
+	data[1], data[2], data[3], data[4] = byte(hc), byte(hc>>8), byte(hc>>16), byte(hc>>24)
 	avail := vConcretize(int(vNondetU8("avail")) % 19)
 	fails := vNondetBool("srcFails")
 	src := &vSrc{data: data, end: avail, frag: vConcretize(int(vNondetU8("frag")) % 2)}
